@@ -259,6 +259,8 @@ func c11Boundary() []c11Case {
 	meta("unsorted-inserts", mAdd(e, c, a, d, b), mView(1), mRem(c), mView(1), mAdd(c), mView(1))
 	meta("readd-refreshes-time", mAdd(a, b), slp(23*hour), mAdd(P(1, 1, 6, 9)), slp(2*hour), mView(1), slp(22*hour+1), mView(1))
 	meta("hook-removes-surfaced", mAdd(a, b, c, P(0, 1, 5, 7)), mHook([]c11Prop{b}, []c11Prop{}, []c11Prop{c, P(0, 1, 5, 7)}), mView(1), mView(0), mAdd(b), mView(1))
+	meta("hook-latest-round-empty", mAdd(a, b, c, d), mHook([]c11Prop{}, []c11Prop{b}, []c11Prop{}, []c11Prop{c}), mView(1), mAdd(b), mView(1))
+	meta("hook-only-old-rounds", mAdd(a, b, c), mHook(nil, nil, []c11Prop{a, c}), mView(1), mHook(), mView(1))
 	meta("remove-absent", mRem(a), mAdd(a), mRem(b, b), mView(1), mRem(a, a), mView(1))
 	meta("types-kept-apart", mAdd(P(0, 1, 5, 1), P(1, 1, 5, 2), P(2, 1, 5, 3)), mView(0), mView(1), mView(2), mRem(P(0, 1, 5, 1)), mView(0), mView(1))
 	meta("filterer", mAdd(a, c), slp(2*hour), mAdd(b), slp(23*hour), mFilter(1, a, b, c, d), mFilter(1, a, b, c, d))
@@ -359,10 +361,14 @@ func c11RandomMeta(r *Rng) c11Case {
 			for j := 0; j < 1+r.Intn(2) && len(added) > 0; j++ {
 				ps = append(ps, added[r.Intn(len(added))])
 			}
-			if r.Bool() {
+			switch r.Intn(4) {
+			case 0, 1:
 				c.Ops = append(c.Ops, mRem(ps...))
-			} else {
+			case 2:
 				c.Ops = append(c.Ops, mHook(ps, nil))
+			default:
+				// surfaced in an older round only: the latest round of the outcome is empty
+				c.Ops = append(c.Ops, mHook(nil, nil, ps))
 			}
 		case 5:
 			var ps []c11Prop
